@@ -812,6 +812,34 @@ func (e *Exec) evalCall(ctx *evalCtx, x *ECall, want types.Type) Val {
 	case "rcancelled", "rclosed":
 		v := arg(0, nil)
 		return Val{T: []string{e.recvState(ctx.st, strings.TrimPrefix(x.F, "r"), v.T[len(v.T)-1], ctx.inOld, ctx.oldHeap)}, Typ: boolT}
+	case "monitor":
+		// monitor(x.mu): the conjunction of the monitor invariants of that lock on that object
+		l := arg(0, nil)
+		if l.Sub == nil {
+			fail("monitor() needs a mutex field")
+		}
+		ov, t := e.objVal(l.Sub.Owner, l.Sub.Obj)
+		tc := e.typeContract(l.Sub.Owner)
+		if t == nil || tc == nil {
+			fail("monitor(): unknown type %s", l.Sub.Owner)
+		}
+		var cs []string
+		for _, c := range tc.Invariants {
+			if c.Lock != l.Sub.Path {
+				continue
+			}
+			sub := &evalCtx{st: ctx.st, self: &ov, selfT: t, scope: map[string]Val{}, inOld: ctx.inOld, oldHeap: ctx.oldHeap}
+			cs = append(cs, e.eval(sub, c.Expr, boolT).T[0])
+		}
+		return Val{T: []string{tAnd(cs...)}, Typ: boolT}
+	case "visited":
+		vis, ok := ctx.st.ghost["$visited"]
+		if !ok {
+			fail("visited(): no map iteration in progress")
+		}
+		mt := vis.Typ.Underlying().(*types.Map)
+		k := arg(0, mt.Key())
+		return Val{T: []string{app("select", vis.T[0], e.mapKeyTerm(mt, k))}, Typ: boolT}
 	case "statusProto":
 		v := arg(0, nil)
 		return Val{T: []string{app(e.fun("status_proto", []string{SInt}, SInt), v.T[0])}, Typ: e.lookupType("*spb.Status")}
